@@ -4,14 +4,14 @@
 # transformation (tools/preserve_fuzz.py) and runs all twenty checks on it.
 # With --suite the repository's test-suite is run on the rewritten copy first
 # and its FAILED/ERROR lines compared with the unchanged tree's
-# (/tmp/mut/baseline_fail.txt), to confirm the rewrite preserved behaviour.
+# (/verif/tools/baseline_fail.txt), to confirm the rewrite preserved behaviour.
 K=$1; D=${PF_DIR:-/tmp/pf}/$K
 rm -rf "$D"; mkdir -p "$D"
 rsync -a --exclude .git --exclude '*.pyc' --exclude __pycache__ /repo/ "$D/" 
 /verif/tools/preserve_fuzz.py "$K" "$D" || exit 2
 if [ "$2" = "--suite" ]; then
   (cd "$D" && PYTHONPATH="$D" /venv/bin/python -m pytest -q -p no:cacheprovider --timeout=900 --continue-on-collection-errors 2>&1 | grep -E "^(FAILED|ERROR)" | sed 's/ - .*//' | sort > "$D/suite.txt")
-  if cmp -s "$D/suite.txt" /tmp/mut/baseline_fail.txt; then echo "$K suite=same"; else echo "$K suite=DIFF"; diff "$D/suite.txt" /tmp/mut/baseline_fail.txt | head -5; fi
+  if cmp -s "$D/suite.txt" /verif/tools/baseline_fail.txt; then echo "$K suite=same"; else echo "$K suite=DIFF"; diff "$D/suite.txt" /verif/tools/baseline_fail.txt | head -5; fi
 fi
 for i in 01 02 03 04 05 06 07 08 09 10 11 12 13 14 15 16 17 18 19 20; do
   out=$(RIGVERIF_REPO=$D RIGVERIF_EVDIR=$D/ev /verif/vcheck C$i 2>&1); rc=$?
